@@ -463,6 +463,9 @@ class Driver:
                     adv = 0
                 elif r < 0.06:
                     adv = period * rng.choice([30, 100]) if not grid else GRID * 128
+                    if rng.random() < 0.05:
+                        adv = 7 * 10 ** 10 if not grid else GRID * 4480000        # nothing happens for 19 hours
+                        self.ev("pause-of-19-hours-inside-a-period")
                 elif style == "jitter" and not grid:
                     adv = max(0, period + rng.randrange(-period // 3, period // 3 + 1))
                 elif style == "random":
